@@ -608,7 +608,7 @@ typedef struct {
 	size_t          bound[MAXLOG];
 	int             nmsg;
 	int             rx_err;
-	bool            rx_stopped, closing;
+	bool            rx_stopped, closing, no_emit;
 	// strict decoder for everything nng emits after the handshake
 	wsdec emit;
 	// effective limits of the nng side
@@ -924,6 +924,7 @@ ep_open(wsep *e, const wscfg *cfg, const bb *extra)
 	}
 	vf_io_plan(VF_IO_FULL, 0, VF_IO_FULL, 0, 0);
 	if (ok) ep_post_recv(e);
+	e->no_emit = !ok; // what follows a failed upgrade is not a frame stream
 	return ok;
 }
 
@@ -991,7 +992,7 @@ ep_free(wsep *e)
 static void
 emit_pump(wsep *e)
 {
-	if (e->emit.viol != NULL) return;
+	if (e->emit.viol != NULL || e->no_emit) return;
 	// the decoder works on the frame stream: bytes after the handshake
 	wsdec_feed(&e->emit, e->raw.in.p + e->raw.pos, e->raw.in.n - e->raw.pos);
 	if (e->emit.viol != NULL) {
@@ -1370,9 +1371,22 @@ close_phase(wsep *e, vf_rng *r, bool healthy)
 {
 	bool raw_first = vf_chance(r, 1, 2);
 	bool masked    = ROLE_IS_SERVER(e->cfg.role);
+	// An SP socket completes a send when the pipe took the message, before
+	// the transport finished writing it; closing in that window exercises
+	// ownership on failed sends (C03), not the codec.  Let the write finish.
+	if (ROLE_IS_SP(e->cfg.role)) vf_quiesce(1, 500);
 	if (healthy && raw_first) {
 		bb      w = { 0 };
 		uint8_t code[2] = { 0x03, 0xe8 };
+		// sometimes a burst of PINGs right in front of the CLOSE: the PONGs
+		// are still queued when the CLOSE reply is written
+		int burst = vf_chance(r, 1, 2) ? (int) vf_range(r, 2, 6) : 0;
+		for (int i = 0; i < burst; i++) {
+			uint8_t pp[8];
+			vf_fill(pp, sizeof(pp), vf_rand(r));
+			put_frame(&w, true, 0, OP_PING, masked, gen_mask(r), pp, g_ctl_max < 8 ? g_ctl_max : 8, 0);
+		}
+		if (burst) vf_stat("ws_close_behind_ping_burst", 1);
 		put_frame(&w, true, 0, OP_CLOSE, masked, gen_mask(r), code, 2, 0);
 		vf_fd_write_all(e->raw.fd, w.p, w.n, 2000);
 		bb_free(&w);
